@@ -14,7 +14,7 @@ func init() {
 	register(&Property{
 		ID:        "C11",
 		Title:     "BPF policy programs reach the same verdict as the policy semantics",
-		Technique: "static analysis: SSA value-flow from proto.Rule / polprog.Rules fields to emitter and stage calls, constant operands of those calls, mode-flag guards and dominance/reachability order of emissions (go/ssa over felix/bpf/polprog, asm, state, felix/rules)",
+		Technique: "static analysis: SSA value-flow from proto.Rule / polprog.Rules fields to emitter and stage calls, constant operands of those calls, mode-flag guards and dominance/reachability order of emissions, reaching definitions of BPF registers with a bit-width abstraction and interval domains of immediates (go/ssa over felix/bpf/polprog, asm, state, felix/rules)",
 		DesignRef: "DESIGN.md §3 C11 (+ additions at the end of DESIGN.md)",
 		Explanation: "Decides structural necessary conditions of verdict equality on the Go program that emits the BPF policy program: " +
 			"(wiring) every proto.Rule match field reaches its matcher with the right polarity (negate constant true iff Not*), the right leg (legSource for Src*, the caller's dest leg for Dst*), from the IP-version-filtered copy, one kind of field per matcher parameter; " +
@@ -24,13 +24,15 @@ func init() {
 			"(fallthrough) the footer is only ever preceded by an unconditional jump or by writeProfiles; " +
 			"(split) the trampoline protocol of maybeSplitProgram is paired (index i+1 <-> targets[i], 0 = fall through), pol_rc is stashed last / loaded first, a new block is started, callers reload registers that are live across a split; " +
 			"(stages) the stage table of Builder.Instructions, recovered from which polprog.Rules field flows into which writeTiers/writeProfiles call: every Rules field is consumed, each policy field by one stage per path, with the destination leg its semantics require (pre-NAT only for pre-DNAT policy and under ForXDP), conditional only on the mode flags that may switch it, in the order host-before-workload / pre-DNAT first / tiers before profiles, allowing to the right continuation label, with to/from-host traffic skipping exactly the apply-on-forward stage; " +
-			"(legflow) the stage's leg is handed down unchanged to writeRule (or fixed consistently where there is no leg parameter) and each matchLeg constant selects its own cali_tc_state address/port field.",
-		NotDecided: "Execution of the emitted program (no interpreter): the internals of each matcher (jump opcodes chosen under negate, CIDR/port arithmetic, IP-set key layout), register allocation inside a matcher, trampolines of asm.Block, jump-offset range; that state.Policy* equal the CALI_POL_* enumerators in bpf-gpl; that callers of Instructions put the right tiers into polprog.Rules; the L7 fields (HttpMatch, *ServiceAccountMatch) which no packet dataplane renders.",
+			"(legflow) the stage's leg is handed down unchanged to writeRule (or fixed consistently where there is no leg parameter) and each matchLeg constant selects its own cali_tc_state address/port field; " +
+			"(cmpwidth/cmpdomain) at every immediate compare the builder emits, the jump class (decoded from the opcode the asm.Block method assembles), the width of the value in the compared register (reaching definitions over the emissions of the function; loads and 32-bit ALU ops zero-extend) and the domain of the immediate (interval over the Go value: constants, unsigned Go types, shifts/ors/masks, value-preserving vs reinterpreting conversions) agree: no 32-bit compare of a wider value, no sign-extending 64-bit compare of a zero-extended value with an immediate whose bit 31 carries magnitude, and a memory-loaded value is exactly as wide as the uintN-declared domain it is compared with.",
+		NotDecided: "Execution of the emitted program (no interpreter): the internals of each matcher (jump condition chosen under negate, CIDR/port arithmetic, IP-set key layout; width agreement of a compare whose immediate is an opaque signed Go value such as proto.PortRange.First or a loop index - only its jump class is checked against the register), register allocation inside a matcher, trampolines of asm.Block, jump-offset range; that state.Policy* equal the CALI_POL_* enumerators in bpf-gpl; that callers of Instructions put the right tiers into polprog.Rules; the L7 fields (HttpMatch, *ServiceAccountMatch) which no packet dataplane renders.",
 		Assumptions: []string{
 			"go/types + go/ssa (x/tools v0.50.0) model of the current source, CGO_ENABLED=0 build",
 			"asm.Block API register roles follow its parameter names (dst/src/ra/rb/ptrReg); Store*(base, value, off); helper calls clobber R0-R5",
 			"skb->cb[0]/cb[1] carry the allow/deny program indices (bpf-gpl jump convention)",
 			"logrus Panic*/Fatal* do not return",
+			"eBPF semantics: LDX and ALU32 results are zero-extended to 64 bits, BPF_JMP compares 64 bits against the sign-extended imm32, BPF_JMP32 compares the low 32 bits; every asm.Block emitter hands its opcode as a constant to Block.add/addWithOffsetFixup; registers live across maybeSplitProgram are covered by C11.split/caller",
 			"the action universe is the set of case constants of switch pRule.Action in felix/rules, minus \"\" (v3 validation requires an action)",
 			"stage semantics (c11StageTable, one reasoned row per slice-typed field of polprog.Rules): pre-DNAT policy matches the original destination, apply-on-forward/normal/workload policy the post-DNAT one, XDP (untracked) programs only have the pre-NAT tuple; the Field strings of polprog's asm.FieldOffset variables name the C fields they address",
 		},
@@ -55,6 +57,9 @@ func runC11(c *Ctx) {
 	c.Rule("C11.stages", "E-TABLE/E-FLOW/E-GUARD/E-ORDER", "the stage table of Builder.Instructions, recovered from which polprog.Rules field flows into which stage call: every Rules field is consumed, every policy field by exactly one stage per path; each stage's destination leg is legDestPreNAT iff the stage is pre-DNAT policy or is rendered under ForXDP, legDest otherwise (a TC+XDP field must select by ForXDP); stages depend only on the mode flags that may switch them (workload stages on !ForHostInterface, only to/from-host stages on !SuppressNormalHostPolicy); host before workload, pre-DNAT first, tiers before profiles; host stages allow to a label placed between host and workload stages, workload stages to the allow exit; to/from-host traffic skips exactly the forwarded-traffic stage and forwarded traffic jumps over the to/from-host stages", 60)
 	c.Rule("C11.legflow", "E-FLOW/E-CONST", "(pass) every function between a stage call and writeRule hands its own destination-leg parameter down; a function without one may only fix the leg all stages reaching it expect; (map) each matchLeg constant selects its own cali_tc_state address/port field (source, pre_nat, post_nat)", 12)
 
+	c.Rule("C11.cmpwidth", "E-RANGE/E-FLOW", "every immediate compare emitted by polprog (jump class and operands decoded from the opcode the asm.Block method assembles): the compare is as wide as the value in the compared register (join over the emissions that may have defined it; loads and 32-bit ALU ops zero-extend); a 64-bit compare - which sign-extends its imm32 - of a zero-extended <=32-bit value never takes an immediate whose bit 31 carries magnitude (the int32 reinterpretation of an unsigned >=32-bit Go value, or a negative constant)", 19)
+	c.Rule("C11.cmpdomain", "E-RANGE/E-FLOW", "where the immediate of a compare ranges over a domain declared by unsigned Go types (uintN, or uintN values shifted / or-ed together) and the compared register holds a value loaded from memory, the loaded (and possibly masked) value is exactly as many bits wide as that domain: no adjacent field is dragged into the comparison and no part of the criterion is compared with nothing", 8)
+
 	sites := c11Wiring(c, m)
 	c11Cover(c, m, sites)
 	ft := c11Verdict(c, m)
@@ -62,6 +67,7 @@ func runC11(c *Ctx) {
 	c11Fallthrough(c, m, ft)
 	c11Split(c, m)
 	c11LegFlow(c, m, c11Stages(c, m, ft))
+	c11CmpWidth(c, m)
 }
 
 // ------------------------------------------------------------------ wiring --
@@ -1542,6 +1548,81 @@ func c11RedefinedBetween(m *c11Model, ems []c11Emission, from, to c11Emission, r
 	return !c11PathAvoiding(from.cs.Instr, to.cs.Instr, func(in ssa.Instruction) bool { return writer[in] })
 }
 
+// ----------------------------------------------------- cmpwidth / cmpdomain --
+
+// c11CmpWidth decides, for every immediate compare a polprog function emits,
+// that the jump class, the width of the value in the compared register and the
+// domain of the immediate agree (see engine_C11cmp.go for the three models).
+func c11CmpWidth(c *Ctx, m *c11Model) {
+	p := m.p
+	ops := m.c11DecodeAsm()
+	split := m.fn(c11PolPkg, "Builder.maybeSplitProgram")
+	domFns := m.polFuncs()
+	if sp := p.SSAPkg(c11PolPkg); sp != nil && sp.Func("init") != nil {
+		domFns = append(domFns, sp.Func("init"))
+	} else {
+		c.Lost("polprog.init")
+	}
+	dc := c11NewDomCtx(domFns)
+	nCmp := 0
+	for _, f := range m.polFuncs() {
+		ems := m.emissionsIn(f)
+		st := &c11RegState{m: m, ops: ops, split: split, ems: ems, dom: dc, busy: map[string]bool{}}
+		for _, e := range ems {
+			o := st.opOf(e)
+			if !o.isImmCompare() {
+				continue
+			}
+			nCmp++
+			args := e.cs.Args()
+			site := p.Pos(e.cs.Instr.Pos())
+			r, okReg := m.regOf(args[o.dstArg])
+			if !okReg {
+				c.Undecided(fmt.Sprintf("C11.cmpwidth/%s/%s", fnName(f), e.name), site, "compared register of %s is not a constant (%s)", e.name, path(args[o.dstArg]))
+				continue
+			}
+			key := fmt.Sprintf("C11.cmpwidth/%s/%s(R%d)", fnName(f), e.name, r)
+			w := st.widthAt(e, r)
+			d := dc.of(args[o.immArg])
+			cb := o.cmpBits()
+			bit31 := d.ok && d.neg // reinterpreted unsigned value or negative constant
+			switch {
+			case !w.known:
+				c.Undecided(key, site, "cannot bound the value of R%d at %s: %s", r, e.name, w.why)
+			case cb < w.bits && w.tight:
+				c.Violate(key, site, "%s in %s is a %d-bit compare but R%d holds a %d-bit value (%s): bits %d..%d of the value are ignored", e.name, fnName(f), cb, r, w.bits, w.why, cb, w.bits-1)
+			case cb < w.bits:
+				c.Undecided(key, site, "%s is a %d-bit compare; R%d can only be bounded to %d bits (%s): cannot establish that no bit above bit %d is set", e.name, cb, r, w.bits, w.why, cb-1)
+			case cb == 64 && bit31 && !o.signedCmp() && w.bits <= 32:
+				c.Violate(key, site, "%s in %s is a 64-bit compare, which sign-extends its imm32, but R%d holds a zero-extended %d-bit value (%s) and the immediate is the %s: whenever bit 31 of the immediate is set the two can never be equal (the compare must use the 32-bit jump class)", e.name, fnName(f), r, w.bits, w.why, d)
+			case cb == 64 && bit31 && !o.signedCmp():
+				c.Undecided(key, site, "%s compares a %d-bit value with the %s: cannot establish that the register is sign-extended the same way", e.name, w.bits, d)
+			default:
+				c.Ok(key, site, "%d-bit compare of a %d-bit value (%s) with %s", cb, w.bits, w.why, d)
+			}
+
+			// declared domain of the immediate vs width of the loaded value
+			if !w.known || !w.fromLoad || !d.ok || d.declared == 0 {
+				continue
+			}
+			dkey := fmt.Sprintf("C11.cmpdomain/%s/%s(R%d)", fnName(f), e.name, r)
+			switch {
+			case w.bits > d.declared && !w.tight:
+				c.Undecided(dkey, site, "%s compares a loaded value that can only be bounded to %d bits (%s) with a %d-bit domain (%s)", e.name, w.bits, w.why, d.declared, d)
+			case w.bits > d.declared:
+				c.Violate(dkey, site, "%s in %s compares a %d-bit loaded value (%s) with an immediate that ranges over a %d-bit domain (%s): bits %d..%d of the loaded value belong to something the criterion does not describe (an adjacent field), so the comparison depends on unrelated data", e.name, fnName(f), w.bits, w.why, d.declared, d, d.declared, w.bits-1)
+			case w.bits < d.declared:
+				c.Violate(dkey, site, "%s in %s compares a %d-bit loaded value (%s) with an immediate that ranges over a %d-bit domain (%s): bits %d..%d of the criterion are compared with zero, criteria using them can never match", e.name, fnName(f), w.bits, w.why, d.declared, d, w.bits, d.declared-1)
+			default:
+				c.Ok(dkey, site, "%d-bit loaded value (%s) compared with a %d-bit declared domain", w.bits, w.why, d.declared)
+			}
+		}
+	}
+	if nCmp == 0 {
+		c.Lost("no immediate compare emitted by package polprog")
+	}
+}
+
 const c11File = "felix/bpf/polprog/pol_prog_builder.go"
 
 var c11Fixtures = []Fixture{
@@ -1645,6 +1726,22 @@ var c11Fixtures = []Fixture{
 		Old: "\tp.b.Jump(\"allowed_by_host_policy\")\n\nnormalPolicy:", New: "\nnormalPolicy:", Expect: "C11.stages/host-skip/exit/HostForwardTiers"},
 	{Name: "to/from-host traffic lands behind the normal host tiers", File: c11File,
 		Old: "\t\t\tp.writeTiers(rules.HostNormalTiers, legDest, \"allowed_by_host_policy\")\n", New: "\t\t\tp.writeTiers(rules.HostNormalTiers, legDest, \"allowed_by_host_policy\")\n\t\t\tp.b.LabelNextInsn(\"to_or_from_host\")\n", Expect: "C11.stages/host-skip/to_or_from_host/HostNormalTiers"},
+	// cmpwidth
+	{Name: "IPv6 CIDR per-word early-out uses the sign-extending 64-bit compare: words with bit 31 set never match (seed C11-3)", File: c11File,
+		Old: "p.b.JumpNEImm32(asm.R2, int32(addr), p.endOfcidrV6Match(cidrIndex))", New: "p.b.JumpNEImm64(asm.R2, int32(addr), p.endOfcidrV6Match(cidrIndex))", Expect: "C11.cmpwidth/Builder.writeCIDRSMatch/JumpNEImm64(R2)"},
+	{Name: "final CIDR word compared with the 64-bit jump: IPv4 CIDRs whose last in-prefix octet is >= 0x80 never match", File: c11File,
+		Old: "p.b.JumpEqImm32(asm.R2, int32(lastAddr), onMatchLabel)", New: "p.b.JumpEqImm64(asm.R2, int32(lastAddr), onMatchLabel)", Expect: "C11.cmpwidth/Builder.writeCIDRSMatch/JumpEqImm64(R2)"},
+	{Name: "IP set lookup result (a 64-bit map-value pointer) tested with a 32-bit compare: a hit whose address has zero low bits reads as a miss", File: c11File,
+		Old: "p.b.JumpEqImm64(asm.R0, 0, p.endOfRuleLabel())", New: "p.b.JumpEqImm32(asm.R0, 0, p.endOfRuleLabel())", Expect: "C11.cmpwidth/Builder.writeIPSetMatch/JumpEqImm32(R0)"},
+	// cmpdomain
+	{Name: "ICMP type-only match loads type and code as one 16-bit value: only code 0 matches (seed C11-4)", File: c11File,
+		Old: "p.b.Load8(asm.R1, asm.R9, stateOffICMPType)", New: "p.b.Load16(asm.R1, asm.R9, stateOffICMPType)", Expect: "C11.cmpdomain/Builder.writeICMPTypeMatch/"},
+	{Name: "ICMP type+code match loads only the type byte: rules with a non-zero code never match", File: c11File,
+		Old: "p.b.Load16(asm.R1, asm.R9, stateOffICMPType)", New: "p.b.Load8(asm.R1, asm.R9, stateOffICMPType)", Expect: "C11.cmpdomain/Builder.writeICMPTypeCodeMatch/"},
+	{Name: "ICMP code shifted past the loaded halfword in the positive type+code match", File: c11File,
+		Old: "p.b.JumpNEImm64(asm.R1, (int32(icmpCode)<<8)|int32(icmpType), p.endOfRuleLabel())", New: "p.b.JumpNEImm64(asm.R1, (int32(icmpCode)<<16)|int32(icmpType), p.endOfRuleLabel())", Expect: "C11.cmpdomain/Builder.writeICMPTypeCodeMatch/JumpNEImm64"},
+	{Name: "CIDR match loads only half of each address word", File: c11File,
+		Old: "p.b.Load32(asm.R1, asm.R9, offset)", New: "p.b.Load16(asm.R1, asm.R9, offset)", Expect: "C11.cmpdomain/Builder.writeCIDRSMatch/"},
 	// legflow
 	{Name: "writeTiers renders its policies post-DNAT whatever the stage asked for", File: c11File,
 		Old: "p.writePolicy(pol, actionLabels, destLeg)", New: "p.writePolicy(pol, actionLabels, legDest)", Expect: "C11.legflow/pass/Builder.writeTiers/writePolicy"},
